@@ -173,9 +173,16 @@ func (s *vpTermScn) audit(where string) {
 
 // vpH_C08_T_causes: one term ended by each cause; optionally a second term through the follower path
 // (the blocking record is removed), ended by Stop.
-func vpH_C08_T_causes() {
+func vpH_C08_T_causes() { vpC08Causes(true) }
+
+// thorough: every jitter / backoff draw symbolic
+func vpH_C08_T_causes_symrand() { vpC08Causes(false) }
+
+func vpC08Causes(fixedRand bool) {
 	H := time.Second
-	vpSetOpt("rand-fixed", 1)
+	if fixedRand {
+		vpSetOpt("rand-fixed", 1)
+	}
 	cause := vpChoose("cause", vpCauses)
 	hc := &vpHealth{}
 	cbMode := vpChoose("callback", 3) // 0: returns at once, 1: blocks on its context, 2: blocks and then needs 1.2s to wind down
